@@ -201,6 +201,8 @@ fn parse_opts(parts: &[&str]) -> (usize, bool) {
 
 /// replica of deser_legacy / deser_backrefs / deser_2026 / deser_auto (wheel/src/api.rs)
 pub fn wheel_deser(a: &mut Allocator, f: &str, blob: &[u8]) -> Result<NodePtr, String> {
+    // `api:<fmt>[:…]` = the same call made through the pure-Python wrapper clvm_rs.serde.deserialize
+    let f = f.strip_prefix("api:").unwrap_or(f);
     let parts: Vec<&str> = f.split(':').collect();
     match parts[0] {
         "legacy" => node_from_bytes(a, blob).map_err(|e| e.to_string()),
@@ -228,6 +230,7 @@ pub fn wheel_deser(a: &mut Allocator, f: &str, blob: &[u8]) -> Result<NodePtr, S
 }
 
 pub fn wheel_ser(a: &Allocator, n: NodePtr, f: &str) -> Result<Vec<u8>, String> {
+    let f = f.strip_prefix("api:").unwrap_or(f);
     let parts: Vec<&str> = f.split(':').collect();
     match parts[0] {
         "legacy" => node_to_bytes(a, n).map_err(|e| e.to_string()),
@@ -1078,6 +1081,27 @@ fn gen_pyserde(rng: &mut Rng, n: usize, _tier: &str) -> Vec<String> {
         out.push(format!("PYSERDE s{} {} {} {}", id, d, s, hex_or_dash(b)));
         id += 1;
     };
+    // fixed: the keyword limits must reach the decoder on every path that accepts them (direct calls and
+    // the pure-Python wrapper, explicit "2026" and "auto")
+    {
+        let mut a = Allocator::new();
+        let x = a.new_atom(b"hello").unwrap();
+        let y = a.new_atom(b"world").unwrap();
+        let p = a.new_pair(x, y).unwrap();
+        let blob = serialize_2026(&a, p, 0).unwrap();
+        let classic = node_to_bytes(&a, p).unwrap();
+        for pre in ["", "api:"] {
+            for fmt in ["auto", "2026"] {
+                for cap in [0usize, 4, 5, 6, 1 << 20] {
+                    for strict in [0, 1] {
+                        push(&mut out, &format!("{pre}{fmt}:{cap}:{strict}"), "view", &blob);
+                    }
+                }
+                push(&mut out, &format!("{pre}{fmt}"), "view", &blob);
+            }
+            push(&mut out, &format!("{pre}auto:4:1"), "view", &classic);
+        }
+    }
     // fixed: empty / truncated / magic-only inputs through every decoder
     let magic = SERDE_2026_MAGIC_PREFIX.to_vec();
     let mut fixed: Vec<Vec<u8>> = vec![vec![], vec![0x80], vec![0xff], vec![0xfe], vec![0xfe, 0x01], magic.clone(), magic[..5].to_vec(),
@@ -1120,7 +1144,13 @@ fn gen_pyserde(rng: &mut Rng, n: usize, _tier: &str) -> Vec<String> {
             _ => rng.pick(&["legacy", "backrefs", "2026", "auto"]).to_string(),
         };
         let s = *rng.pick(&sers);
-        push(&mut out, &d, s, &blob);
+        // a third of the requests go through the pure-Python wrappers clvm_rs.serde.{deserialize, serialize}
+        let (d, s) = if rng.chance(1, 3) {
+            (format!("api:{}", d), if s == "view" { s.to_string() } else { format!("api:{}", s) })
+        } else {
+            (d, s.to_string())
+        };
+        push(&mut out, &d, &s, &blob);
     }
     out
 }
